@@ -65,11 +65,17 @@ DeliverSnapshot ==
 Touch == /\ \E i \in ITEMS : last' = <<Msg(i, -1, 0)>>
          /\ UNCHANGED <<held, delivered>>
 
+\* a disconnect notice of the market-data or account link the item arrives on (the stream is
+\* reconnecting): a notice is not an exchange report either - what the exchange reported stays as
+\* it is, and a late message arriving after the link is back is still judged against it
+Notice == /\ \E i \in ITEMS : last' = <<Msg(i, -3, 0)>>
+          /\ UNCHANGED <<held, delivered>>
+
 \* the state that holds the items is stored and restored (serialised and read back): nothing changes
 Persist == /\ last' = <<>>
            /\ UNCHANGED <<held, delivered>>
 
-Next == DeliverOne \/ DeliverSnapshot \/ Touch \/ Persist
+Next == DeliverOne \/ DeliverSnapshot \/ Touch \/ Notice \/ Persist
 Spec == Init /\ [][Next]_vars
 
 (***************************************************************************)
@@ -86,7 +92,7 @@ Latest == \A i \in ITEMS :
 \* an older message never overwrites newer state; other items are untouched
 NoRollbackA == \A i \in ITEMS :
                  /\ (held[i].has => held'[i].has /\ held'[i].t >= held[i].t)
-                 /\ ((\A k \in 1..Len(last') : last'[k].item # i \/ last'[k].t = -1) => held'[i] = held[i])
+                 /\ ((\A k \in 1..Len(last') : last'[k].item # i \/ last'[k].t < 0) => held'[i] = held[i])
 NoRollback == [][NoRollbackA]_vars
 
 View == <<held, delivered>>
